@@ -134,7 +134,7 @@ BIT_STRING_encode_oer(const asn_TYPE_descriptor_t *td,
     }
 
     if(st->bits_unused) {
-        if(st->buf[st->size - 1] & (0xff << st->bits_unused)) {
+        if(st->buf[st->size - 1] & (0xff << (st->bits_unused & 0x07))) {
             fix_last_byte = 1;
         }
     }
@@ -144,7 +144,7 @@ BIT_STRING_encode_oer(const asn_TYPE_descriptor_t *td,
     }
 
     if(fix_last_byte) {
-        uint8_t b = st->buf[st->size - 1] & (0xff << st->bits_unused);
+        uint8_t b = st->buf[st->size - 1] & (0xff << (st->bits_unused & 0x07));
         if(cb(&b, 1, app_key) < 0) {
             ASN__ENCODE_FAILED;
         }
